@@ -296,6 +296,14 @@ def float_stream(R, ctx, tn):
         d = rng.choice([2, 3, 4, 5])
         n = [rng.randint(1, 4) for _ in range(d)]
         r1, r2 = rand_profile(rng, d), rand_profile(rng, d)
+        if t % 7 == 6:
+            # long chains: more than 2^63 elements, far beyond anything a dense reference (or an int64 element count)
+            # can hold; the chain contraction itself stays representable
+            kind = ['mean', 'sum', 'get', 'mul_scalar', 'norm'][(t // 7) % 5]
+            d = rng.randint(64, 90)
+            n = [rng.choice([2, 2, 3, 4, 10]) for _ in range(d)]
+            r1 = [1] + [rng.randint(1, 2) for _ in range(d - 1)] + [1]
+            r2 = [1] + [rng.randint(1, 2) for _ in range(d - 1)] + [1]
         Y1, Y2 = rand_float_tt(rng, n, r1), rand_float_tt(rng, n, r2)
         idx = [rng.randrange(k) for k in n]
         y1, y2 = coq_tt(Y1, fl), coq_tt(Y2, fl)
@@ -544,6 +552,44 @@ def search(R, ctx, deep, hints):
             fails.append(dict(what='expression tree raised: ' + repr(ex)[:200], input=dict(n=n, expr=repr(e)[:3000])))
         if len(fails) >= 3:
             break
+    # long separable chains (more elements than an int64 can count): exact reference by Fraction, factor by factor
+    from fractions import Fraction
+    for _ in range(40 if deep else 10):
+        if len(fails) >= 3:
+            break
+        d = rng.randint(64, 100)
+        n = [rng.choice([2, 3, 4, 5, 10]) for _ in range(d)]
+        terms = []
+        for _t in range(rng.randint(1, 2)):
+            terms.append([[rng.choice([1, 1, 2, -1, 3]) for _ in range(k)] for k in n])
+        Y = [np.array(v, dtype=float).reshape(1, -1, 1) for v in terms[0]]
+        for vs in terms[1:]:
+            Y = tn.add(Y, [np.array(v, dtype=float).reshape(1, -1, 1) for v in vs])
+        idx = [rng.randrange(k) for k in n]
+        ex_sum = sum(math.prod(Fraction(sum(v)) for v in vs) for vs in terms)
+        ex_mean = sum(math.prod(Fraction(sum(v), len(v)) for v in vs) for vs in terms)
+        ex_get = sum(math.prod(Fraction(v[i]) for v, i in zip(vs, idx)) for vs in terms)
+        ex_dot = sum(math.prod(Fraction(sum(a * b for a, b in zip(v, w))) for v, w in zip(vs, ws)) for vs in terms for ws in terms)
+        n_eval += 1
+        inp = dict(family='long separable chain', n=n, terms=terms, idx=idx)
+        for nm, got, ex in [('sum', lambda: tn.sum(Y), ex_sum), ('mean', lambda: tn.mean(Y), ex_mean),
+                            ('get', lambda: tn.get(Y, idx), ex_get), ('mul_scalar', lambda: tn.mul_scalar(Y, Y), ex_dot),
+                            ('norm', lambda: tn.norm(Y) ** 2, ex_dot)]:
+            try:
+                g = float(got())
+                sc = sum(abs(math.prod(Fraction(sum(abs(x) for x in v)) for v in vs)) for vs in terms) if nm != 'mean' else \
+                    sum(abs(math.prod(Fraction(sum(abs(x) for x in v), len(v)) for v in vs)) for vs in terms)
+                if nm in ('mul_scalar', 'norm'):
+                    sc = sc * sc
+                if nm == 'get':
+                    sc = sum(abs(math.prod(Fraction(abs(v[i])) for v, i in zip(vs, idx))) for vs in terms)
+                if not (math.isfinite(g) and abs(Fraction(g) - ex) <= Fraction(1, 10 ** 9) * max(sc, Fraction(1, 10 ** 300))):
+                    fails.append(dict(what=f'{nm} of a long separable chain (d={d}, {float(math.prod(n)):.3g} elements) differs from the exact value',
+                                      input=inp, got=g, expected=float(ex)))
+                    break
+            except Exception as ex_:
+                fails.append(dict(what=f'{nm} of a long separable chain raised {ex_!r}'[:300], input=inp))
+                break
     R.search.append(dict(name='dense exact-integer reference (python ints, explicit loops)', evaluations=n_eval,
                          failures=len(fails), deep=deep))
     return fails
@@ -560,5 +606,17 @@ def replay(data):
         f = oracle_case(tn, C.Rng(0), inp['n'], inp['r1'], inp['r2'], Y1, Y2)
         print('replayed:', f)
         return 1 if f else 0
+    if inp.get('family') == 'long separable chain':
+        from fractions import Fraction
+        terms, n = inp['terms'], inp['n']
+        Y = [np.array(v, dtype=float).reshape(1, -1, 1) for v in terms[0]]
+        for vs in terms[1:]:
+            Y = tn.add(Y, [np.array(v, dtype=float).reshape(1, -1, 1) for v in vs])
+        ex_mean = sum(math.prod(Fraction(sum(v), len(v)) for v in vs) for vs in terms)
+        ex_sum = sum(math.prod(Fraction(sum(v)) for v in vs) for vs in terms)
+        g1, g2 = float(tn.mean(Y)), float(tn.sum(Y))
+        print('mean', g1, 'exact', float(ex_mean), '| sum', g2, 'exact', float(ex_sum))
+        bad = lambda g, e: not (math.isfinite(g) and abs(Fraction(g) - e) <= Fraction(1, 10 ** 6) * max(abs(e), Fraction(1, 10 ** 300)))
+        return 1 if (bad(g1, ex_mean) or bad(g2, ex_sum)) else 0
     print(inp)
     return 1
